@@ -72,19 +72,35 @@ func suite() hlib.Suite {
 		all := append([]modeCfg{}, modes...)
 		all = append(all, modeCfg{mode: "file"})
 		for _, mc := range all {
-			for _, conc := range []int{1, 2, 3} {
+			concs := []int{1, 2, 3}
+			if *prop == "C04" {
+				concs = append(concs, 16, 300) // large pools: every worker is woken and used
+			}
+			for _, conc := range concs {
 				for _, limit := range []uint64{1, 2, 3, 7} {
-					for _, body := range []time.Duration{time.Millisecond, 150 * time.Millisecond} {
+					for bi, body := range []time.Duration{time.Millisecond, 150 * time.Millisecond, time.Millisecond} {
 						if !r.Mine() || r.Expired() {
 							continue
 						}
-						if *prop == "C04" && (limit != 7 || mc.mode == "file") {
+						// third variant: the first iteration marks the scenario-level handle (the one setup got) failed;
+						// the run still makes exactly the allowed iterations
+						failsScenarioT := bi == 2
+						if failsScenarioT && *prop != "C03" {
+							continue
+						}
+						if conc > 3 && limit == 7 {
+							limit = uint64(conc) + 4
+						}
+						if *prop == "C04" && (limit < 7 || mc.mode == "file") {
 							// (file mode is outside C04's statement: a new stage's pool may overlap
 							// the previous stage's in-flight work, and does - 2 in flight with concurrency 1)
 							continue
 						}
 						r.Eval()
 						input := fmt.Sprintf("mode=%s concurrency=%d max-iterations=%d body=%s", mc.mode, conc, limit, body)
+						if failsScenarioT {
+							input += " first-iteration-fails-the-scenario-level-handle"
+						}
 						r.SampleCase(input)
 						var ids []int
 						inflight, hw := 0, 0
@@ -98,10 +114,13 @@ func suite() hlib.Suite {
 						} else {
 							rs.Flags = mc.flags(conc + 1)
 						}
-						rs.ScenarioFn = func(t *f1testing.T) f1testing.RunFn {
+						rs.ScenarioFn = func(scenarioT *f1testing.T) f1testing.RunFn {
 							return func(t *f1testing.T) {
 								id, _ := strconv.Atoi(t.Iteration)
 								ids = append(ids, id)
+								if failsScenarioT && len(ids) == 1 {
+									scenarioT.Fail()
+								}
 								inflight++
 								if inflight > hw {
 									hw = inflight
